@@ -39,7 +39,9 @@ def seed():
 
 
 def work_dir(pid, sub=None, clean=False):
-    d = VERIF / ".work" / pid
+    # a run against another tree (VERIF_REPO: seeded-change evaluation, candidate repairs) works in a directory of its own,
+    # so that it cannot collide with a concurrent run against /repo
+    d = VERIF / ".work" / (pid if str(REPO) == "/repo" else "%s@%s" % (pid, hashlib.sha1(str(REPO).encode()).hexdigest()[:8]))
     if sub:
         d = d / sub
     if clean and d.exists():
